@@ -2731,12 +2731,130 @@ func vC03ZoneWalkOf(w []byte, stop int, kind string) map[string]any {
 	}
 }
 
+// ---- the decoded-path chase's reading of a hop response: searchAdditionalAnswer(msg, res) — which names the
+// next sub-question — and respCnameHasType(res, qtype) called directly on generated answer sections: no, one or
+// several alias records between records of other types, alias records first / last / only, an alias whose
+// header carries another type (the code goes by the header's type), targets in several spellings.
+// exhaustive small scope (thorough tier): every answer section of at most four records over {alias to b.test.,
+// alias to c.test., an address record, a *dns.CNAME under an address header} asked for each of {A, CNAME}
+func vC03AliasScanExhaustive(emit func(map[string]any)) {
+	mk := func(kind int) (dns.RR, string) {
+		hdr := dns.RR_Header{Name: "q.test.", Rrtype: dns.TypeCNAME, Class: dns.ClassINET, Ttl: 60}
+		switch kind {
+		case 0:
+			return &dns.CNAME{Hdr: hdr, Target: "b.test."}, fmt.Sprintf("(5%%N, Some %s)", vC03Bytes([]byte("b.test.")))
+		case 1:
+			return &dns.CNAME{Hdr: hdr, Target: "c.test."}, fmt.Sprintf("(5%%N, Some %s)", vC03Bytes([]byte("c.test.")))
+		case 2:
+			hdr.Rrtype = dns.TypeA
+			return &dns.A{Hdr: hdr, A: []byte{192, 0, 2, 1}}, "(1%N, None)"
+		}
+		hdr.Rrtype = dns.TypeA
+		return &dns.CNAME{Hdr: hdr, Target: "d.test."}, fmt.Sprintf("(1%%N, Some %s)", vC03Bytes([]byte("d.test.")))
+	}
+	var rec func(kinds []int)
+	rec = func(kinds []int) {
+		for _, qtype := range []uint16{dns.TypeA, dns.TypeCNAME} {
+			res, msg := new(dns.Msg), new(dns.Msg)
+			var obs []string
+			for _, k := range kinds {
+				rr, o := mk(k)
+				res.Answer = append(res.Answer, rr)
+				obs = append(obs, o)
+			}
+			target, child := searchAdditionalAnswer(msg, res)
+			has := respCnameHasType(res, qtype)
+			emit(map[string]any{
+				"k": "aliasscan-exhaustive",
+				"coq": fmt.Sprintf("CaseAliasScan [%s] %d %s %s %d %s", strings.Join(obs, "; "), qtype, vC03Bytes([]byte(target)), vC03Bool(child),
+					len(msg.Answer), vC03Bool(has)),
+				"go_fail":    "",
+				"nontrivial": child,
+				"desc":       map[string]any{"answer": fmt.Sprintf("%v", res.Answer), "qtype": qtype, "target": target, "child": child, "has": has},
+			})
+		}
+		if len(kinds) == 4 {
+			return
+		}
+		for k := 0; k < 4; k++ {
+			rec(append(append([]int(nil), kinds...), k))
+		}
+	}
+	rec(nil)
+}
+
+func vC03AliasScanCase(r *rand.Rand) map[string]any {
+	names := []string{"b.test.", "C.Test.", "a\\.b.test.", "\\000.z.", ".", "x.y.z.example.", "B.TEST."}
+	otherTypes := []uint16{dns.TypeA, dns.TypeAAAA, dns.TypeTXT, dns.TypeRRSIG, dns.TypeNS, dns.TypeDNAME}
+	res := new(dns.Msg)
+	n := r.Intn(6)
+	shape := r.Intn(6) // 0: no alias at all, 1: only aliases, else mixed
+	var obs []string
+	var aliasTargets []string
+	for i := 0; i < n; i++ {
+		isAlias := shape == 1 || (shape != 0 && r.Intn(3) == 0)
+		if isAlias {
+			tgt := names[r.Intn(len(names))]
+			typ := dns.TypeCNAME
+			if r.Intn(10) == 0 {
+				typ = dns.TypeA // a *dns.CNAME value under a header of another type: not an alias for the scan
+			}
+			res.Answer = append(res.Answer, &dns.CNAME{Hdr: dns.RR_Header{Name: "q.test.", Rrtype: typ, Class: dns.ClassINET, Ttl: 60}, Target: tgt})
+			obs = append(obs, fmt.Sprintf("(%d%%N, Some %s)", typ, vC03Bytes([]byte(tgt))))
+			if typ == dns.TypeCNAME {
+				aliasTargets = append(aliasTargets, tgt)
+			}
+			continue
+		}
+		typ := otherTypes[r.Intn(len(otherTypes))]
+		var rr dns.RR
+		hdr := dns.RR_Header{Name: "q.test.", Rrtype: typ, Class: dns.ClassINET, Ttl: 60}
+		switch typ {
+		case dns.TypeA:
+			rr = &dns.A{Hdr: hdr, A: []byte{192, 0, 2, byte(i)}}
+		case dns.TypeTXT:
+			rr = &dns.TXT{Hdr: hdr, Txt: []string{"t"}}
+		case dns.TypeNS:
+			rr = &dns.NS{Hdr: hdr, Ns: "ns.test."}
+		case dns.TypeDNAME:
+			rr = &dns.DNAME{Hdr: hdr, Target: "d.test."}
+		default:
+			rr = &dns.RFC3597{Hdr: hdr, Rdata: "00"}
+		}
+		res.Answer = append(res.Answer, rr)
+		obs = append(obs, fmt.Sprintf("(%d%%N, None)", typ))
+	}
+	msg := new(dns.Msg)
+	for i := r.Intn(3); i > 0; i-- {
+		msg.Answer = append(msg.Answer, &dns.A{Hdr: dns.RR_Header{Name: "q.test.", Rrtype: dns.TypeA, Class: dns.ClassINET, Ttl: 60}, A: []byte{198, 51, 100, 1}})
+	}
+	before := len(msg.Answer)
+	qtype := append(otherTypes, dns.TypeCNAME, dns.TypeMX)[r.Intn(len(otherTypes)+2)]
+	target, child := searchAdditionalAnswer(msg, res)
+	has := respCnameHasType(res, qtype)
+	goFail := ""
+	if child != (len(aliasTargets) > 0) {
+		goFail = fmt.Sprintf("searchAdditionalAnswer reports child=%v for an answer with %d alias records", child, len(aliasTargets))
+	} else if child && target != aliasTargets[len(aliasTargets)-1] {
+		goFail = fmt.Sprintf("searchAdditionalAnswer names %q, the last alias of the response points at %q", target, aliasTargets[len(aliasTargets)-1])
+	}
+	return map[string]any{
+		"k": "aliasscan",
+		"coq": fmt.Sprintf("CaseAliasScan [%s] %d %s %s %d %s", strings.Join(obs, "; "), qtype, vC03Bytes([]byte(target)), vC03Bool(child),
+			len(msg.Answer)-before, vC03Bool(has)),
+		"go_fail":    goFail,
+		"nontrivial": len(aliasTargets) > 0,
+		"desc":       map[string]any{"answer": fmt.Sprintf("%v", res.Answer), "qtype": qtype, "target": target, "child": child, "has": has},
+	}
+}
+
 func TestVerifC03Store(t *testing.T) {
 	tr := vC03Open(t)
 	defer tr.f.Close()
 	vC03Corpus(t, tr)
 	if os.Getenv("VERIF_TIER") == "thorough" {
 		vC03ZoneWalkExhaustive(tr.emit)
+		vC03AliasScanExhaustive(tr.emit)
 	}
 	for i := 0; i < vC03MatrixSize; i++ {
 		tr.emit(vC03AudienceMatrix(i))
@@ -2751,6 +2869,9 @@ func TestVerifC03Store(t *testing.T) {
 		}
 		if i%5 == 0 {
 			tr.emit(vC03ZoneWalkCase(r))
+		}
+		if i%3 == 0 {
+			tr.emit(vC03AliasScanCase(rand.New(rand.NewSource(seed*104729 + int64(i)))))
 		}
 	}
 }
